@@ -224,6 +224,7 @@ public:
     template <class InputIterator>
     void build_heap(InputIterator first, InputIterator last)
     {
+        clear();
         heap_.assign(first, last);
         heapify();
     }
@@ -231,6 +232,7 @@ public:
     //! Builds a heap from the vector \c keys. Items of \c keys are copied.
     void build_heap(const std::vector<key_type>& keys)
     {
+        clear();
         heap_.resize(keys.size());
         std::copy(keys.begin(), keys.end(), heap_.begin());
         heapify();
@@ -239,8 +241,7 @@ public:
     //! Builds a heap from the vector \c keys. Items of \c keys are moved.
     void build_heap(std::vector<key_type>&& keys)
     {
-        if (!empty())
-            heap_.clear();
+        clear();
         heap_ = std::move(keys);
         heapify();
     }
